@@ -75,3 +75,4 @@ Definition go_sbyte (s : string) (i : Z) : Z := go_sbyte_nat s (Z.to_nat i).
 (* what a Validate method reports into its *ValidationResults: AddError / AddWarning / AddTimeCheck, in order;
    the texts are not kept *)
 Inductive go_issue := GoError | GoWarning | GoTimeCheck.
+Definition go_err_isnil (e : option string) : bool := match e with None => true | Some _ => false end.
